@@ -41,6 +41,7 @@ fn main() {
         ("c16", "replay") => yv::c16::replay(&args),
         ("c03", "record") => yv::c03::record(&args),
         ("c05", "record") => yv::c05::record(&args),
-        _ => { eprintln!("unknown command {:?}", &a[..2]); std::process::exit(2); }
+        // extension machines of cy.rs: indexlist | grid | path | fmt | tng  x  record | replay
+        (c, m) => if !yv::cy::dispatch(c, m, &args) { eprintln!("unknown command {:?}", &a[..2]); std::process::exit(2); }
     }
 }
